@@ -40,6 +40,10 @@ fn write_project(dir: &Path, files: &[PFile]) {
     }
     // a data file every project has: its base64 differs between the two alphabets
     std::fs::write(dir.join("key.bin"), [0xfbu8, 0xff, 0xfe, 0x3e, 0x3f, 0xfa]).expect("write data file");
+    // a library every project has whose module writes an artifact of its own (next to the library,
+    // whoever instantiates it); it is not in the file list, so that artifact is never compared
+    let _ = std::fs::create_dir_all(dir.join("shared"));
+    std::fs::write(dir.join("shared/outmod.ucg"), "let m = module {v = 1} => (r) {\n  let r = {v = mod.v + 1};\n  out json r;\n};\n").expect("write library");
 }
 
 fn artifact_of(dir: &Path, f: &PFile) -> Option<Vec<u8>> {
@@ -172,6 +176,18 @@ impl C16 {
             files.push(PFile { rel: "lib/report.ucg".into(), src: "let l = import \"./l.ucg\";\nlet name = l.defaults.name;\nlet v = 4;\nout json {name = name};\n".into(), has_out: true, kind: "entry".into() });
             files.push(PFile { rel: "app/main.ucg".into(), src: "let l = import \"../lib/l.ucg\";\nlet defaults = import \"./defaults.ucg\";\nlet name = l.defaults.name;\nlet v = 5;\nout json {name = name, region = defaults.region};\n".into(), has_out: true, kind: "entry".into() });
         }
+        // entry files that instantiate the module of shared/outmod.ucg, whose body has an out
+        // statement: each builds alone, so each builds in a batch with the others
+        if t.chance(1, 3) {
+            let k = 2 + t.choice(2);
+            for j in 0..k {
+                let in_sub = t.chance(1, 3);
+                let rel = if in_sub { format!("sub/w{}.ucg", j) } else { format!("w{}.ucg", j) };
+                let v = 100 + 10 * j as i64 + t.range(0, 9);
+                let src = format!("let l = import \"{}\";\nlet x = l.m{{v = {}}};\nlet v = {};\nout json {{v = v, x = x.v}};\n", rel_import(&rel, "shared/outmod.ucg"), v, v);
+                files.push(PFile { rel, src, has_out: true, kind: "entry-instantiating-out-module".into() });
+            }
+        }
         // the unparsable files the lazy imports name, next to their importers (never built themselves:
         // the name does not end in .ucg for the recursive build... it does, so it is part of the project)
         for r in needs_broken {
@@ -194,6 +210,9 @@ impl C16 {
         let built_and_imported = imported.iter().any(|b| *b);
         if built_and_imported {
             o.class("file-built-and-imported");
+        }
+        if files.iter().filter(|f| f.kind == "entry-instantiating-out-module").count() >= 2 {
+            o.class("two-files-instantiate-a-module-with-out");
         }
         // baseline: each file alone, fresh process, fresh copy
         let mut base: Vec<Result1> = vec![];
@@ -323,7 +342,7 @@ impl Property for C16 {
         "C16"
     }
     fn rule(&self) -> String {
-        "generated projects of 2..6 files in two directories (libraries with functions and modules, with and without their own out; entry files importing earlier files and using their values, functions and modules; syntax / type / run-time failing files; identical stems in different directories); baseline = each file built alone by the real binary in a fresh process on a fresh copy; then every permutation of the file list (<= 4 files, 12 random orders beyond) in one invocation, twice on fresh copies and once repeated on the same directory, plus `ucg build -r .`; per-file failure (from the `Error building file:` diagnostics), artifact bytes and exit status must equal the baseline. Non-trivial: a file is both built and imported, or a failing file precedes a passing one; distinct by project.".into()
+        "generated projects of 2..6 files in two directories (libraries with functions and modules, with and without their own out; entry files importing earlier files and using their values, functions and modules; syntax / type / run-time failing files; identical stems in different directories; two or three entry files that instantiate the module of a shared library whose body has an out statement); baseline = each file built alone by the real binary in a fresh process on a fresh copy; then every permutation of the file list (<= 4 files, 12 random orders beyond) in one invocation, twice on fresh copies and once repeated on the same directory, plus `ucg build -r .`; per-file failure (from the `Error building file:` diagnostics), artifact bytes and exit status must equal the baseline. Non-trivial: a file is both built and imported, or a failing file precedes a passing one; distinct by project.".into()
     }
     fn assumptions(&self) -> Vec<String> {
         vec!["'any number of times' is tested as two fresh runs plus one repetition on the same directory".into()]
